@@ -65,9 +65,15 @@ func checkC04(c *an.Ctx) {
 		badWait = true
 		c.Bad("C04.2", an.Short(fn)+":"+op.Kind+"("+groupKey(op.OnVal)+")", op.Instr.Pos(), "the scheduling loop can block on %s %s%s before the next pass: stages that became eligible meanwhile are not started", op.Kind, op.On, via)
 	}
-	for _, op := range an.BlockingOps(s.launchFn) {
+	lf := s.launchFn
+	if s.outer != nil && s.outerFn != nil {
+		lf = s.outerFn
+	} else if s.outer == nil {
+		lf = s.loopFn
+	}
+	for _, op := range an.BlockingOps(lf) {
 		if loop.Blocks[op.Instr.Block()] {
-			report(s.launchFn, op, "")
+			report(lf, op, "")
 		}
 	}
 	// callees of call sites inside the loop (not through Cancel, which is C03.5's business)
@@ -228,9 +234,21 @@ func checkC04(c *an.Ctx) {
 	// C04.4
 	op := s.inner.RangeOperand()
 	okRange := false
-	for _, r := range an.ResolveAll(op) {
+	isScheduled := func(v ssa.Value) bool {
+		if an.SameValue(v, s.schedule.Params[1]) {
+			return true
+		}
+		stop := func(x ssa.Value) bool { return x == ssa.Value(s.schedule.Params[1]) }
+		for _, src := range p.DeepSourcesStop(v, 3, true, stop) {
+			if src != ssa.Value(s.schedule.Params[1]) {
+				return false
+			}
+		}
+		return true
+	}
+	for _, r := range p.DeepSources(op, 2, false) {
 		if call, ok := r.(*ssa.Call); ok {
-			if cc, ok := an.IsCallTo(call, fnGraphNodes); ok && an.SameValue(cc.Args[0], s.schedule.Params[1]) {
+			if cc, ok := an.IsCallTo(call, fnGraphNodes); ok && isScheduled(cc.Args[0]) {
 				okRange = true
 			}
 		}
